@@ -96,22 +96,27 @@ def r122(ctx, R):
         arg = calls[0].args[1] if len(calls[0].args) > 1 else None
         okarg = False
         why = src(arg) if arg is not None else None
+        # the difference itself, or a local bound to it
+        dv = None
         if isinstance(arg, ast.Name):
             d = c05.single_def(f, arg.id)
+            dv = d.value if d is not None else None
+        elif arg is not None:
+            dv = arg
+        if dv is not None:
             # a - b, or a.difference(b)
             dl = dr = None
-            if d is not None and isinstance(d.value, ast.BinOp) and \
-                    isinstance(d.value.op, ast.Sub):
-                dl, dr = d.value.left, d.value.right
-            elif d is not None and isinstance(d.value, ast.Call) and \
-                    isinstance(d.value.func, ast.Attribute) and \
-                    d.value.func.attr == 'difference' and len(
-                        d.value.args) == 1 and not d.value.keywords:
-                dl, dr = d.value.func.value, d.value.args[0]
+            if isinstance(dv, ast.BinOp) and isinstance(dv.op, ast.Sub):
+                dl, dr = dv.left, dv.right
+            elif isinstance(dv, ast.Call) and isinstance(
+                    dv.func, ast.Attribute) and \
+                    dv.func.attr == 'difference' and len(
+                        dv.args) == 1 and not dv.keywords:
+                dl, dr = dv.func.value, dv.args[0]
             if dl is not None:
                 left = c05.single_def(f, src(dl))
                 right = c05.single_def(f, src(dr))
-                why = '%s = %s' % (arg.id, src(d.value))
+                why = '%s' % src(dv)
                 if left is not None and right is not None:
                     ls = src(C.inline_locals(f, left.value))
                     rs = src(C.inline_locals(f, right.value))
